@@ -371,6 +371,10 @@ func twkbGen(r *rand.Rand, n int, tier string, emit func(Case)) {
 			emit(c)
 			continue
 		}
+		if i%50 == 7 {
+			emit(Case{"kind": "zero", "which": r.Intn(4), "p": r.Intn(16) - 8, "size": r.Intn(2) == 0, "bbox": r.Intn(2) == 0})
+			continue
+		}
 		if i%8 == 3 {
 			// lattice geometries (touching rings, T-junctions, shared vertices are common) scaled to decimal fractions
 			l := &lgen{r: r, N: 3 + r.Intn(6)}
@@ -483,6 +487,39 @@ func hasEmptyPointInNonEmptyMulti(t map[string]interface{}) bool {
 
 func twkbExec(c Case) Event {
 	ev := twkbOnPanic(c)
+	if c.str("kind") == "zero" {
+		// the empty collection in the representations only library results have (nil-pointer Geometry): the zero value, an
+		// empty envelope as a geometry, set operations on empty operands
+		var g geom.Geometry
+		switch c.num("which") {
+		case 1:
+			g = geom.Envelope{}.AsGeometry()
+		case 2:
+			g, _ = geom.Intersection(geom.Point{}.AsGeometry(), geom.Point{}.AsGeometry())
+		case 3:
+			g, _ = geom.Difference(geom.Polygon{}.AsGeometry(), geom.LineString{}.AsGeometry())
+		}
+		var opts []geom.TWKBWriterOption
+		if c.boolean("size") {
+			opts = append(opts, geom.TWKBSizeHeader())
+		}
+		if c.boolean("bbox") {
+			opts = append(opts, geom.TWKBBoundingBoxHeader())
+		}
+		x := Event{"kind": "grid", "parts": []*flat{}, "q": 0, "err": "", "decerr": "", "same": false, "panic": ""}
+		bs, err := geom.MarshalTWKB(g, c.num("p"), opts...)
+		if err != nil {
+			x["err"] = errStr(err)
+			return x
+		}
+		dg, err := geom.UnmarshalTWKB(bs)
+		if err != nil {
+			x["decerr"] = errStr(err)
+			return x
+		}
+		x["same"] = dg.IsEmpty() && dg.Type() == g.Type() && dg.IsGeometryCollection() == g.IsGeometryCollection()
+		return x
+	}
 	if c.str("kind") == "grid" {
 		g0 := mustWKT(c.str("w"))
 		q := c.num("q")
